@@ -6,6 +6,8 @@ import check
 
 GEN = ['tables']
 LEAN_MODULES = ['XfabVerif.Proofs.C04', 'XfabVerif.Proofs.C04Names']
+# definitions the hand-written model mirrors (see harness/pins.py): a source change breaks the tie
+PINS = ['xfab/sg.py:sg']
 EXTRA_OBLIGATION_FILES = ['XfabVerif/Gen/Sg/Check%d.lean' % k for k in range(16)]
 AUDIT_FILES = ['XfabVerif/Lemmas/SgSound.lean', 'XfabVerif/Lemmas/C04Metric.lean', 'XfabVerif/Model/SgModel.lean', 'XfabVerif/Model/SgLookup.lean']
 LEAN_DRIVER_MODULES = ['XfabVerif.Model.SgLookup', 'XfabVerif.Gen.Sg.All']
